@@ -44,7 +44,7 @@ def explore(ck):
     r = ck.rng; quick = ck.tier == 'quick'
     ck.rule = ('generated chains over the 8 coins, --verify on/off (on: block 0 is the coin\'s real genesis block), each transaction built around one feature: '
                'input/output count 252/253/254 (65535/65536 thorough), script length 0,1,75,76,252..256,65535,65536 (70000 thorough), segwit with stacks of 0,1,2,253 items '
-               'and item lengths 0,1,252,253,300,520,521,600,10000 (70000 thorough), non-canonical CompactSize widths for every count/length, u32/u64 extremes; tx counts 1,2,3,252..254; '
+               'and item lengths 0,1,252,253,300,520,521,600,10000 (70000 thorough), non-canonical CompactSize widths for every count/length, u32/u64 extremes, byte-identical (coinbase and other) transactions in several blocks, XOR-obfuscated directories (key with a zero byte); tx counts 1,2,3,252..254; '
                'compared: the four CSV files byte for byte, names, totals, exit status. Non-trivial: a boundary-width count/length or a segwit transaction; distinct by feature tags.')
     feats = ['plain', 'in_count', 'out_count', 'script_len', 'segwit', 'noncanonical', 'extremes']
     ncases = 40 if quick else 240
@@ -52,11 +52,14 @@ def explore(ck):
     for i in range(ncases):
         coin = gen.ALL_COINS[i % 8]; verify = (i % 3 == 0) and coin in gen.GENESIS
         big = (not quick) and i % 16 == 5
-        nb = r.randrange(1, 4); blocks = []; prev = b'\x00' * 32; tags = []
+        nb = r.randrange(1, 4) if i % 7 != 3 else 3; blocks = []; prev = b'\x00' * 32; tags = []
         for h in range(nb):
             if h == 0 and verify: b = gen.GENESIS[coin]; blocks.append(b); prev = b.hash; continue
             ntx = r.choice([1, 1, 2, 3]) if not (i % 10 == 7 and h == nb - 1) else r.choice([252, 253, 254])
             txs = [coinbase_tx(h, [(50 * 10**8, P2PKH(gen.rb(r, 20)))])]
+            if i % 7 == 3:      # byte-identical coinbase transactions at several heights (as in Bitcoin blocks 91722/91880), and a non-coinbase transaction repeated in a later block
+                txs = [coinbase_tx(0, [(50 * 10**8, P2PKH(b'\x11' * 20))])]; tags.append('dup-txid')
+                if h > 0 and len(blocks[0].txs) > 1 and not (verify): txs.append(blocks[0].txs[1])
             for j in range(1, ntx):
                 if ntx > 100: t = Tx([(gen.rb(r, 32), j, b'', 0)], [(j, b'\x51')]); tg = ['txcount=%d' % ntx]
                 else: t, tg = boundary_tx(r, feats[(i + j + h) % len(feats)], big)
@@ -69,7 +72,10 @@ def explore(ck):
             b = Block(prev, txs, version=ver, time=r.choice(U32 + [1231006505]), bits=r.choice(U32), nonce=r.choice(U32), auxpow=aux,
                       count_width=(r.choice([3, 5, 9]) if 'widths' in tags and r.random() < 0.5 else None))
             blocks.append(b); prev = b.hash
-        c = Case('c%d' % i, coin).simple_layout(blocks); c.verify = verify; c.meta['tags'] = sorted(set(tags)); c.meta['cbs'] = ['csv']
+        c = Case('c%d' % i, coin)
+        if i % 5 == 2:      # an obfuscated directory (C11 explores keys and layouts; here: the field-exactness of C01 must not depend on the directory being plaintext)
+            key = bytearray(gen.rb(r, 8)); key[r.randrange(8)] = 0 if i % 2 else key[0]; c.xor = bytes(key); tags.append('xor')
+        c.simple_layout(blocks); c.verify = verify; c.meta['tags'] = sorted(set(tags)); c.meta['cbs'] = ['csv']
         cases.append(c)
     def nontrivial(c, m):
         t = [x for x in c.meta['tags'] if x not in ('plain', 'extremes')]
